@@ -45,6 +45,17 @@ class T(unittest.TestCase):
         pass
 
 
+class FalsyT(T):
+    """a test case that is also a container (class TestStack(Stack, unittest.TestCase)): empty, hence false"""
+
+    def __len__(self):
+        return 0
+
+
+def mk_test(i):
+    return FalsyT(i) if i % 5 == 2 else T(i)
+
+
 class Output:
     def __init__(self):
         self.infos = []
@@ -89,7 +100,7 @@ def real_shuffle(layers, seed, resume_layer=None):
     runner.options.output = out
     runner.tests_by_layer_name = {}
     for name, ids in layers:
-        runner.tests_by_layer_name[name] = unittest.TestSuite([T(i) for i in ids])
+        runner.tests_by_layer_name[name] = unittest.TestSuite([mk_test(i) for i in ids])
     feat = shuffle.Shuffle(runner)
     rec = FloorRecorder()
     old = shuffle.math
